@@ -102,4 +102,50 @@ theorem refused_change_inert (c v : Nat) (h : v ∉ Spec.editions) : setEdition 
 
 example : checkSubfunctionValid 0x42 2013 = .error .notImpl ∧ checkSubfunctionValid 0x42 2020 = .ok () := by decide
 
+/-! ### the whole configuration dictionary: `set_configs` with several keys is all-or-nothing -/
+
+/-- **a refused change of several keys is not applied at all**: whatever the other keys of the call are and wherever the bad edition stands among them -/
+theorem refused_configs_inert (c : Config) (d : List (String × Int)) (h : (setConfigs c d).2 = true) : (setConfigs c d).1 = c := by
+  by_cases hok : (c.update d).editionOk = true
+  · simp [setConfigs, hok] at h
+  · simp [setConfigs, hok]
+
+/-- an accepted change applies every key of the call -/
+theorem accepted_configs_applied (c : Config) (d : List (String × Int)) (h : (setConfigs c d).2 = false) :
+    (setConfigs c d).1 = c.update d ∧ ((setConfigs c d).1).editionOk = true := by
+  by_cases hok : (c.update d).editionOk = true
+  · simp [setConfigs, hok]
+  · simp [setConfigs, hok] at h
+
+/-- the configuration in force always carries one of the three editions, after any sequence of (multi-key) changes -/
+theorem config_invariant (c : Config) (hc : c.editionOk = true) (changes : List (List (String × Int))) :
+    (changes.foldl (fun cfg d => (setConfigs cfg d).1) c).editionOk = true := by
+  induction changes generalizing c with
+  | nil => exact hc
+  | cons d rest ih =>
+    apply ih
+    by_cases hok : (c.update d).editionOk = true
+    · simp [setConfigs, hok]
+    · simp [setConfigs, hok, hc]
+
+/-- a call is refused exactly when the edition it would leave in force is not one of the three -/
+theorem configs_refused_iff (c : Config) (d : List (String × Int)) : (setConfigs c d).2 = true ↔ (c.update d).editionOk = false := by
+  by_cases hok : (c.update d).editionOk = true <;> simp [setConfigs, hok]
+
+/-- the last binding of `standard_version` in the call decides (a call that does not mention the edition keeps the current one) -/
+theorem update_get_last (c : Config) (pre post : List (String × Int)) (k : String) (v : Int) (hp : ∀ e ∈ post, e.1 ≠ k) :
+    (c.update (pre ++ [(k, v)] ++ post)).get k = some v := by
+  unfold Config.update Config.get
+  rw [List.reverse_append, List.reverse_append, List.append_assoc, List.append_assoc]
+  have hpost : (post.reverse).find? (fun e => e.1 == k) = none := by
+    rw [List.find?_eq_none]
+    intro e he
+    have := hp e (List.mem_reverse.1 he)
+    simpa using this
+  rw [List.find?_append, hpost]
+  simp
+
+example : setConfigs [("standard_version", 2013), ("p2_timeout", 1)] [("p2_timeout", 3), ("standard_version", 2012)] =
+    ([("standard_version", 2013), ("p2_timeout", 1)], true) := by decide
+
 end Uds.Props.C18
